@@ -1054,6 +1054,42 @@ package router
 //@     modifies *
 //@     invariant s != nil && routerReady(s.r) && s.logger != nil && c != nil && nRemote >= 1 && remoteAddr == gAP
 
+// ---- server_http_fasthttp.go (the fasthttp variant of the DoH listener) ---------------------------------------
+// readReqMsg / HandleFastHTTP: as for the net/http variant - a decoded query or an error status, never a panic,
+// bounded body and decode buffer; a request is handled at most once and gets at most one body, the packed
+// response. (This listener applies no admission control at all; see DESIGN section 6, noted.)
+//@ func readClientAddrFromXFFBytes(b []byte) (a netip.Addr, err error)
+//@   props C01
+//@   modifies nothing
+//@ func readClientAddrFromXFF(s string) (a netip.Addr, err error)
+//@   props C01
+//@   modifies nothing
+//@ func (h *fasthttpHandler) readReqMsg(ctx *fasthttp.RequestCtx) (m *dnsmsg.Msg)
+//@   props C01 C20
+//@   requires h != nil && h.logger != nil && ctx != nil
+//@   ghost gLR io.Reader = nil
+//@   ghost gN int64 = 0
+//@   aftercall LimitReader?: gLR = ret0
+//@   aftercall LimitReader?: gN = arg1
+//@   modifies nothing
+//@   ensures m != nil ==> fresh(m) && wfMsg(m) && !attr(released, m)
+//@   callsite ReadFrom?: [C01:request-body-read-through-the-64k-limit] arg1 == gLR && gN == 65535
+//@   callsite GetBuf?: [C01:bounded-decode-buffer] arg0 <= 65535
+//@ func (h *fasthttpHandler) HandleFastHTTP(ctx *fasthttp.RequestCtx)
+//@   props C03 C20 C01 C09
+//@   requires h != nil && routerReady(h.r) && h.logger != nil && ctx != nil
+//@   ghost nH int = 0
+//@   ghost nW int = 0
+//@   ghost gB pool.Buffer = nil
+//@   oncall handleServerReq?: nH = nH + 1
+//@   oncall SetBody?: nW = nW + 1
+//@   aftercall mustHaveRespB?: gB = ret0
+//@   modifies *
+//@   ensures [C03:at-most-one-answer] nH <= 1 && nW == nH
+//@   callsite handleServerReq?: [C03:this-router] arg0 == h.r
+//@   callsite mustHaveRespB?: [C03,C09:fallback-answer-http-limit] arg2 == dnsmsg.RCodeRefused && arg3 == false && arg4 == 65535
+//@   callsite SetBody?: [C03:the-packed-response-is-the-body] arg1 == gB && len(arg1) >= 12
+
 // tcpServer.run (accept loop, TCP and DoT): every accepted connection is charged - 15 for TLS, 3 for plain TCP -
 // to its remote address; a refused connection is closed and never handled.
 //@ func (s *tcpServer) run() (err error)
